@@ -7,6 +7,8 @@ def check(ctx):
     n = dis.check_precedence(ctx, rep)
     rep.floor("display tags on the all-miss path of dict_to_dis", n, 8)
     dis.check_regex(ctx, rep)
+    npush = dis.check_replacer_pushes(ctx, rep)
+    rep.floor("append sites of the macro replacer", npush, 4)
     E = [b.id for b in prog.bodies.values() if b.short in (
         "haystack::val::dict::dict_to_dis", "haystack::val::dis_macro::dis_macro",
         "<haystack::val::dict::Dict as haystack::val::dict::HaystackDict>::dis", "haystack::val::dict::decode_str_from_value")
